@@ -20,6 +20,7 @@ import KcpVerif.Lemmas.SysDrainHead4
 import KcpVerif.Lemmas.SysDrainAll
 import KcpVerif.Lemmas.SysDrainFull
 import KcpVerif.Lemmas.SysDrainFull2
+import KcpVerif.Lemmas.SysDrainFair2
 /-! C02 — eventual delivery: a healed network always drains the backlog. -/
 namespace KcpVerif.Props
 open KcpVerif KcpVerif.Gen KcpVerif.Kcp KcpVerif.Live
@@ -1168,64 +1169,71 @@ example : SysC.RunP (SysC.DrainHyp ⟨c02A.snd_nxt, c02A.conv, 0, 0, 0⟩ 300 10
     (SysC.netRun (Sys.init c02A c02A 0 1000) c02DrainPre) c02DrainEvs :=
   SysC.runChk_sound ⟨c02A.snd_nxt, c02A.conv, 0, 0, 0⟩ 300 10 _ _ (by decide)
 
-/-! ### the drain with a non-empty send queue (congestion control on or off)
+/-! ### the drain with a non-empty send queue (congestion control on or off), reader condition only
 
-The induction is now over `WaitSnd = |snd_buf| + |snd_queue|`.  Without `Send`, `|snd_queue| + snd_nxt`
-is constant (`SysC.qn_run`), so `WaitSnd` falls exactly by the advance of `snd_una` (`SysC.wait_run`).
-One stage (`SysC.stage_full`, `fullStage` ms) makes `snd_una` advance whenever something is waiting:
+The induction is over `WaitSnd = |snd_buf| + |snd_queue|`.  Without `Send`, `|snd_queue| + snd_nxt` is
+constant (`SysC.qn_run`), so `WaitSnd` falls exactly by the advance of `snd_una` (`SysC.wait_run`).  A
+stage starts at a clock tick — the scheduler ticks only when the reader has nothing to read, so B's
+queue is not full (`QOk`) and B is not behind A's head — and makes `snd_una` advance within `fairStage`
+(`SysC.stage_fair`):
 
-1. within one probe round A's `rmt_wnd` is non-zero (`C03_zero_window_probe_bound`, Props/C03.lean) and
-   stays so: every datagram on its way to A carries a non-zero window (`SysC.FreshBa`, kept by every
-   event while B's queue is not full — `SysC.freshBa_step`, `SysC.rmt_keep_step`);
-2. if nothing is outstanding, A numbers a segment within two flushes (`SysC.flush_admits`,
-   `SysC.adm_run`): with congestion control on, `cwnd` may be 0 at the first flush (a fresh core, or
-   `cwnd` clamped to `rmt_wnd = 0` by an ACK), but every flush leaves `cwnd ≥ 1` (`SysC.flush_cwnd_pos`)
-   and with nothing outstanding no ACK changes it (`SysC.inA_cwnd`);
-3. the head of the send buffer is released (`C02_progress_step_every_head`).
+* something is outstanding: the head of the send buffer is released (`C02_progress_step_every_head`);
+* nothing is outstanding, something is queued: until A numbers a segment every PUSH still on its way
+  to B is old, so nothing but the reader changes B's receive side and its queue stays not full
+  (`SysC.qp_step`, `SysC.qp_prefix`).  Within `quietLen`: whatever was on its way to A at the start has
+  arrived (`SysC.ArrOk`, `SysC.OF`: every datagram arrives within `D`, the clock cannot pass an
+  undelivered one); one probe round makes A's `rmt_wnd` non-zero (`C03_zero_window_probe_bound`,
+  Props/C03.lean) and it stays so, every datagram on its way to A now carrying a non-zero window
+  (`SysC.freshBa_step`, `SysC.rmt_keep_step`); A numbers a segment within two flushes
+  (`SysC.flush_admits`, `SysC.adm_run`): with congestion control on, `cwnd` may be 0 at the first one (a
+  fresh core, or `cwnd` clamped to `rmt_wnd = 0` by an ACK), but every flush leaves `cwnd ≥ 1`
+  (`SysC.flush_cwnd_pos`) and with nothing outstanding no ACK changes it (`SysC.inA_cwnd`)
+  (`SysC.quiet_bounded`).  Then the new head is released.
 
-Run hypotheses, all checks on single states (`SysC.FullHyp`; Boolean form `SysC.runFullChk`): `Small`;
-`QB` — B's receive queue is not full and `rcv_wnd < 65536` in EVERY state (stronger than the reader
-condition `QOk` of `C02_drain_partial`: the window must exceed what arrives between two reads);
-`TmrOk Rmax` as before; `CfgA` — `0 < snd_wnd < 2^31`.  Nothing is asked of the start state beyond
-reachability. -/
+Run hypotheses, all checks on single states (`SysC.FairHyp`; Boolean form `SysC.runFairChk`): `Small`;
+`0 < rcv_wnd < 65536`; the reader condition `QOk` (a reader with nothing to read has not left the queue
+full — B's queue MAY be full between two reads); `TmrOk Rmax`: the retransmission timer of the head is
+never more than `Rmax` ms ahead — the place where the uncapped RTO backoff enters the bound; `CfgA`:
+`0 < snd_wnd < 2^31`.  Of the start state: reachable, and B's queue not full. -/
 
 open KcpVerif.Sys KcpVerif.SysC in
 /-- **one stage of the general drain** -/
-theorem C02_drain_stage_general {p : Par} {IA IB Rmax : Nat} {s : State} (hi : Inv3 p IA IB s) (hIA : IA < 2 ^ 29)
-    (hR : Rmax + IA < 2 ^ 31) (hw : 0 < s.A.waitSnd) (evs : List Ev) (hns : ∀ ev ∈ evs, isSend ev = false)
-    (hr : RunP (FullHyp p Rmax IA) s evs) (hnow : s.now + fullStage Rmax IA IB s.D < (Sys.run s evs).now) :
+theorem C02_drain_stage_general {p : Par} {IA IB Rmax : Nat} (hIA : IA < 2 ^ 29) (hR : Rmax + IA < 2 ^ 31) {s : State}
+    (hi : Inv p IA IB s) (hpi : PInv IA s) (ha : ArrOk s) (hqB : s.B.rcv_queue.length < s.B.rcv_wnd.toNat)
+    (hw : 0 < s.A.waitSnd) (evs : List Ev) (hns : ∀ ev ∈ evs, isSend ev = false)
+    (hr : RunP (FairHyp p Rmax IA) s evs) (hnow : s.now + fairStage Rmax IA IB s.D < (Sys.run s evs).now) :
     o p.base s.A.snd_una < o p.base (Sys.run s evs).A.snd_una :=
-  stage_full hi hIA hR hw evs hns hr hnow
+  stage_fair hIA hR hi hpi ha hqB hw evs hns hr hnow
 
 open KcpVerif.Sys KcpVerif.SysC in
-/-- **`C02_drain`, any send queue, congestion control on or off**: two fresh endpoints, ANY history `pre` of
-writes, reads, events and network faults; from the state it leaves the writer stops, the links are fair
-and B's receive queue is never full.  Once the clock has advanced by
-`D + 1 + WaitSnd · (fullStage + 1)` ms —
-`fullStage = (IKCP_PROBE_LIMIT + 2·IA + 2·D + IB + 1) + (2·IA + 1) + (Rmax + IA + 2·D + IB)` — `WaitSnd = 0`
-and the receiver has handed every numbered segment to the reader's queue.  The first `D + 1` ms let
-whatever was on its way to A at the start (possibly with `wnd = 0`) arrive: every datagram arrives
-within `D` of its emission (`SysC.ArrOk`, kept by every event and every non-forging fault) and the clock
-cannot pass the arrival time of an undelivered datagram (`SysC.OF`, Lemmas/SysDrainFull2.lean). -/
+/-- **`C02_drain`, any send queue, congestion control on or off, fair reader**: two fresh endpoints, ANY
+history `pre` of writes, reads, events and network faults (loss, duplication, reordering); from the
+state it leaves the writer stops, the links are fair and the reader reads whenever there is something
+to read.  Once the clock has advanced by `WaitSnd · (fairStage + 2)` ms, with
+`fairStage = quietLen + 1 + (Rmax + IA + 2·D + IB)` and
+`quietLen = (D + 1) + (IKCP_PROBE_LIMIT + 2·IA + 2·D + IB + 1) + 2·IA`, `WaitSnd = 0`; and whenever B's
+queue is not full the receiver has handed every numbered segment to the reader's queue. -/
 theorem C02_drain_general_partial (A B : Kcp) (D t0 : Nat) (ndA ndB : Bool) (hinit : ConsInit A B)
     (hpw : A.probe_wait = 0) (hIA : A.interval.toNat < 2 ^ 29) (pre : List NetEv)
     (hpre : NetNoWrap A.snd_nxt (Sys.init A B D t0 ndA ndB) pre) (Rmax : Nat) (hR : Rmax + A.interval.toNat < 2 ^ 31)
+    (hqB : (netRun (Sys.init A B D t0 ndA ndB) pre).B.rcv_queue.length <
+      (netRun (Sys.init A B D t0 ndA ndB) pre).B.rcv_wnd.toNat)
     (evs : List Ev) (hns : ∀ ev ∈ evs, isSend ev = false)
-    (hr : RunP (FullHyp ⟨A.snd_nxt, A.conv, 0, 0, 0⟩ Rmax A.interval.toNat) (netRun (Sys.init A B D t0 ndA ndB) pre) evs)
-    (hnow : (netRun (Sys.init A B D t0 ndA ndB) pre).now + (netRun (Sys.init A B D t0 ndA ndB) pre).D + 1 +
-      (netRun (Sys.init A B D t0 ndA ndB) pre).A.waitSnd *
-      (fullStage Rmax A.interval.toNat B.interval.toNat (netRun (Sys.init A B D t0 ndA ndB) pre).D + 1) ≤
+    (hr : RunP (FairHyp ⟨A.snd_nxt, A.conv, 0, 0, 0⟩ Rmax A.interval.toNat) (netRun (Sys.init A B D t0 ndA ndB) pre) evs)
+    (hnow : (netRun (Sys.init A B D t0 ndA ndB) pre).now + (netRun (Sys.init A B D t0 ndA ndB) pre).A.waitSnd *
+      (fairStage Rmax A.interval.toNat B.interval.toNat (netRun (Sys.init A B D t0 ndA ndB) pre).D + 2) ≤
       (Sys.run (netRun (Sys.init A B D t0 ndA ndB) pre) evs).now) :
     (Sys.run (netRun (Sys.init A B D t0 ndA ndB) pre) evs).A.waitSnd = 0 ∧
-    (Sys.run (netRun (Sys.init A B D t0 ndA ndB) pre) evs).B.rcv_nxt =
-      (Sys.run (netRun (Sys.init A B D t0 ndA ndB) pre) evs).A.snd_nxt := by
+    ((Sys.run (netRun (Sys.init A B D t0 ndA ndB) pre) evs).B.rcv_queue.length <
+        (Sys.run (netRun (Sys.init A B D t0 ndA ndB) pre) evs).B.rcv_wnd.toNat →
+      (Sys.run (netRun (Sys.init A B D t0 ndA ndB) pre) evs).B.rcv_nxt =
+        (Sys.run (netRun (Sys.init A B D t0 ndA ndB) pre) evs).A.snd_nxt) := by
   obtain ⟨hi, hpi⟩ := inv_pinv_netRun (by omega) pre _ (inv_init A B D t0 ndA ndB hinit)
     (pinv_init A B D t0 ndA ndB hpw) hpre
   have ha := arrOk_netRun pre _ (arrOk_init A B D t0 ndA ndB)
-  have hw := drain_full_any hIA hR hi hpi ha evs hns hr hnow
-  refine ⟨hw, ?_⟩
-  have hi' := inv_run evs _ hi (full_noWrap evs _ hr)
-  have hq' := (RunP.last evs _ hr).2.1.1
+  have hw := drain_fair_all hIA hR _ _ hi hpi ha hqB (Nat.le_refl _) evs hns hr hnow
+  refine ⟨hw, fun hq' => ?_⟩
+  have hi' := inv_run evs _ hi (fair_noWrap evs _ hr)
   obtain ⟨g1, g2, hc'⟩ := hi'.cons
   unfold Kcp.waitSnd at hw
   generalize Sys.run (netRun (Sys.init A B D t0 ndA ndB) pre) evs = s' at *
